@@ -56,6 +56,12 @@ def specs(bridge):
         namedtype.NamedType('a', univ.Integer()), namedtype.NamedType('b', univ.Boolean()))).subtype(
         subtypeSpec=constraint.WithComponentsConstraint(('a', constraint.ComponentAbsentConstraint()))))
     out.append(univ.Real().subtype(subtypeSpec=constraint.ValueRangeConstraint(0, 10)))
+    inner = univ.Sequence(componentType=namedtype.NamedTypes(namedtype.OptionalNamedType('a', univ.Integer()),
+                                                             namedtype.OptionalNamedType('b', univ.Boolean())))
+    out.append(univ.Sequence(componentType=namedtype.NamedTypes(namedtype.NamedType('i', inner))).subtype(
+        subtypeSpec=constraint.WithComponentsConstraint(('i', constraint.WithComponentsConstraint(
+            ('a', constraint.ConstraintsUnion(constraint.ValueRangeConstraint(1, 5), constraint.ComponentAbsentConstraint())),
+            ('b', constraint.ConstraintsExclusion(constraint.ComponentAbsentConstraint())))))))
     return out
 
 
@@ -221,7 +227,9 @@ def inputs(tier, seed):
             bytes.fromhex('31820804') + big]
     # records with OPTIONAL members left out (guides with a value constraint on such a member must cope), a CHOICE
     out += [b'\x30\x03\x01\x01\xff', b'\x30\x06\x02\x01\x03\x01\x01\xff', b'\x30\x06\x02\x01\x09\x01\x01\xff',
-            b'\x30\x80\x01\x01\x00\x00\x00', b'\x31\x03\x01\x01\xff', b'\x02\x01\x05', b'\x01\x01\xff']
+            b'\x30\x80\x01\x01\x00\x00\x00', b'\x31\x03\x01\x01\xff', b'\x02\x01\x05', b'\x01\x01\xff',
+            b'\x30\x05\x30\x03\x01\x01\xff', b'\x30\x08\x30\x06\x02\x01\x09\x01\x01\xff', b'\x30\x02\x30\x00',
+            b'\x30\x05\x30\x03\x02\x01\x03']
     # constructed strings whose segments are themselves constructed (X.690 8.7.3.2 allows it): valid input, rarely produced
     out += [bytes.fromhex(h) for h in (
         '24802480040161000004016200 00', '240a24800401610000040162', '2c802480 0402c3a9 0000 0000', '2480 2405 0401 61 0401 62 0000',
